@@ -3,6 +3,7 @@ package main
 import (
 	"bytes"
 	"fmt"
+	"os"
 	"strings"
 	"time"
 
@@ -193,6 +194,31 @@ func runC11(o *opts) error {
 		cases.line("E %s %s %s %s", op, esc, hx(s), strings.Join(hs, " "))
 		impl.line("E %s", c11Eval(op, lit, cands))
 		stats["E"]++
+	}
+
+	if rc := o.get("replaycase", ""); rc != "" {
+		// replay: re-run exactly the given case lines
+		data, err := os.ReadFile(rc)
+		if err != nil {
+			return err
+		}
+		for _, line := range strings.Split(strings.TrimSpace(string(data)), "\n") {
+			f := strings.Fields(line)
+			if len(f) < 2 {
+				continue
+			}
+			switch f[0] {
+			case "L":
+				emitL(unhx(f[1]))
+			case "T":
+				emitT(unhx(f[1]))
+			case "B":
+				emitB(unhx(f[1]))
+			case "E":
+				emitE(f[1], f[2], unhx(f[3]))
+			}
+		}
+		return nil
 	}
 
 	// corpus first
